@@ -31,6 +31,9 @@ CLAIMED = {
          "Exploration: every triu pattern for n<=4 (5 in thorough) under every ordering, every non-permutation vector, and >200k generated matrices/histories are factored; each Ok result must satisfy the no-pivot backward-error bound, the stepwise pivot/regularisation rule, exact symbolic fill, inertia count, solve residual and refactor==fresh bitwise; each reject must be the documented error.",
          "Trusted: dense reference recurrences in harness/src/props/c12.rs; the standard gamma_n|L||D||L'| bound with constant 10(n+2); generic matrices with factor growth >1e12 are discarded (counted), strictly diagonally dominant ones never are.",
          "DESIGN.md §4 C12"),
+ "C13": ("proptest-generated interior pairs of nonnegative / second-order / PSD cones; independent dense Nesterov-Todd reference and algebraic identities",
+         "Exploration: 40k (quick) / 2M (thorough) (cone, s, z, vectors) over nonneg dim<=10, SOC dim 2..12 (dense and sparse-expanded forms), PSD n<=6, boundary distances down to ~2e-7, magnitudes 1e+-6 and mismatched; W z = W^-T s = lambda, (W'W) z = s, inverse/transposition/accumulate forms, the KKT block (diagonal, dense triangle or eta^2(D+uu'-vv')) against an independent dense NT operator, Jordan product, lambda-inverse, affine and corrector terms.",
+         "Trusted: closed-form NT reference for nonneg/SOC and the eigen-based P = S^1/2 (S^1/2 Z S^1/2)^-1/2 S^1/2 for PSD (oracle's own Jacobi eigen-solver), norm-wise backward-error tolerance max(1e3 eps kappa(W), 1e6 eps/delta); PSD cone runs on the pure-Rust BLAS/LAPACK shim.", "DESIGN.md §4 C13"),
  "C14": ("proptest-generated interior points of exp/pow/genpow cones; dual barriers re-implemented and differentiated exactly with nested dual numbers",
          "Exploration: 80k (quick) / 3M (thorough) (cone, s, z, directions, mu) tuples over exponents incl. within 1e-3 of 0/1, dim1<=5, dim2<=4, magnitudes 1e+-6, boundary distance 1e-6..2; membership predicates, stored gradient/Hessian (also after reuse of the cone object), mu*H under dual scaling, conjugacy of the primal gradient (measured on g against an exact Newton solve), primal barrier identity, third-order correction, secant properties of the primal-dual scaling, and centrality of the starting point are compared with exact derivatives.",
          "Trusted: the barrier definitions and forward-mode dual numbers in harness/src/dual.rs; tolerance max(1e-9, 1e4 eps/delta); third-order term judged only for delta>=1e-3.", "DESIGN.md §4 C14"),
